@@ -64,6 +64,14 @@ Theorem C11_slice_by_value_omitted : forall s, length (wx s) = length (wy s) -> 
 Proof. exact slice_by_value_omitted. Qed.
 Print Assumptions C11_slice_by_value_omitted.
 
+(** ======== generated arithmetic = model (Gen/Kernels.v is regenerated from the source on every check) ======== *)
+From TW Require Import Model.MatchSpec Model.Process Gen.Kernels Proofs.KernelsLink.
+Theorem C11_generated_truncate_ratio : forall x v, x <> [] ->
+  truncate__x_left (VS v) (VV x) = VS (v * (lastq x - headq x) + headq x) /\
+  truncate__x_right (VS v) (VV x) = VS (v * (lastq x - headq x) + headq x).
+Proof. exact gen_truncate_ratio. Qed.
+Print Assumptions C11_generated_truncate_ratio.
+
 Example C11_example :
   match truncate [qz 0; qz 1; qz 2; qz 3; qz 4] [qz 5; qz 6; qz 7; qz 8; qz 9] (qf 3 2) (qf 5 2) false false with
   | Ok r => list_eqb Qc_eqb (fst r) [qz 1; qz 2; qz 3] && list_eqb Qc_eqb (snd r) [qz 6; qz 7; qz 8]
